@@ -1,7 +1,10 @@
 //! Verification hooks. Compiled only with `--cfg compio_verif`; every hook is a
 //! no-op until a harness calls [`block`].
 
-use std::sync::atomic::{AtomicBool, AtomicU64, Ordering};
+use std::sync::{
+    Mutex,
+    atomic::{AtomicBool, AtomicU64, Ordering},
+};
 
 const POINTS: usize = 16;
 static BLOCKED: [AtomicBool; POINTS] = [const { AtomicBool::new(false) }; POINTS];
@@ -15,6 +18,17 @@ pub const REMOTE_BEFORE_RESERVE: usize = 1;
 pub const REMOTE_SPIN_RETRY: usize = 2;
 /// `Remote::schedule`: the id is queued, the driver is about to be woken.
 pub const REMOTE_PUSHED: usize = 3;
+
+/// `Remote::schedule`: a non-null pointer to the executor's shared state was
+/// loaded and is about to be used.
+pub const REMOTE_HOLDS_SHARED: usize = 8;
+/// `Remote::schedule`: about to return through the early path (the task was
+/// already scheduled, completed or cancelled).
+pub const REMOTE_EARLY_RETURN: usize = 9;
+/// `Remote::poll`: inside the waker-setting critical section, about to leave it.
+pub const REMOTE_SETTING_WAKER: usize = 10;
+/// `Task::run`: the future has been polled, the outcome is about to be published.
+pub const RUN_POLLED: usize = 11;
 
 /// A named point of the code; a thread reaching it waits while the point is blocked.
 pub fn sched_point(id: usize) {
@@ -41,4 +55,48 @@ pub fn arrived(id: usize) -> u64 {
     } else {
         0
     }
+}
+
+static LIVE: Mutex<Vec<usize>> = Mutex::new(Vec::new());
+static STALE_USES: AtomicU64 = AtomicU64::new(0);
+static TRAP: AtomicBool = AtomicBool::new(false);
+
+/// The executor allocated its shared state at `ptr`.
+pub fn shared_new(ptr: *const ()) {
+    let mut live = LIVE.lock().unwrap_or_else(|e| e.into_inner());
+    live.push(ptr as usize);
+}
+
+/// The executor is about to free its shared state at `ptr`.
+pub fn shared_free(ptr: *const ()) {
+    let mut live = LIVE.lock().unwrap_or_else(|e| e.into_inner());
+    if let Some(i) = live.iter().position(|p| *p == ptr as usize) {
+        live.swap_remove(i);
+    }
+}
+
+/// A waker is about to use the shared state at `ptr`. Counts the use when the
+/// state has already been freed; with [`set_trap`] it then panics instead of
+/// letting the caller touch the freed memory.
+pub fn shared_use(ptr: *const ()) {
+    let stale = {
+        let live = LIVE.lock().unwrap_or_else(|e| e.into_inner());
+        !live.contains(&(ptr as usize))
+    };
+    if stale {
+        STALE_USES.fetch_add(1, Ordering::SeqCst);
+        if TRAP.load(Ordering::SeqCst) {
+            panic!("verif: executor shared state used after it was freed");
+        }
+    }
+}
+
+/// How many times freed shared state was about to be used.
+pub fn stale_uses() -> u64 {
+    STALE_USES.load(Ordering::SeqCst)
+}
+
+/// Make [`shared_use`] panic on a stale use.
+pub fn set_trap(on: bool) {
+    TRAP.store(on, Ordering::SeqCst);
 }
